@@ -488,6 +488,24 @@ func (root *Root) ParseExecutableReader(r io.Reader) (*Executable, error) {
 func (root *Root) SDL(full bool, desc ...bool) string {
 	var b strings.Builder
 
+	// A schema that was not declared with a schema block is not in the type
+	// table. It has to be written if it says more than the names of the
+	// types imply, which is the case after an 'extend schema' that names a
+	// root type differently or adds a directive. The schema comes first as
+	// it does when it is in the type table.
+	if root.schema != nil && root.types.get(root.schema.Name()) != root.schema {
+		said := 0 < len(root.schema.Dirs)
+		for _, fd := range root.schema.fields.list {
+			// query is implied by a type named Query and so on.
+			if fd.Type == nil || 0 == len(fd.N) || fd.Type.Name() != strings.ToUpper(fd.N[:1])+fd.N[1:] {
+				said = true
+			}
+		}
+		if said {
+			b.Write([]byte{'\n'})
+			b.WriteString(root.schema.SDL(desc...))
+		}
+	}
 	for _, t := range root.types.list {
 		if full || !t.Core() {
 			b.Write([]byte{'\n'})
